@@ -51,6 +51,11 @@ pub fn judge(p: &ValuePointerRef, steps: &[Step]) -> Vec<Finding> {
 }
 
 fn observe(acc: &mut Acc, p: &ValuePointerRef, steps: &[Step], part: &str) {
+    // everything that touches the location under test counts as one guarded call for the non-termination watchdog
+    let _active = monitor::watch::guard();
+    if steps.len() <= 8 {
+        monitor::watch::set_context(|| format!("location {}", vcore::render_path(steps)));
+    }
     acc.eval();
     acc.count(&format!("paths.{part}"));
     if steps.is_empty() {
